@@ -41,9 +41,12 @@ def eval_bdd(bdd_str, assignment):
         i = hi if assignment[v] else lo
     return i == 1
 
+SANITIZED = {'formula', 'tree', 'multi', 'trees', 'ext', 'ext_multi'}
+
 class Session:
     """one native evaluation of a batch of runs on one instance"""
     def __init__(self, inst, k, runs, plain=False, drop=(), extra_ctx=None):
+        plain = plain or any(r.get('entry', 'ext_dirty') in SANITIZED for r in runs)
         ctx = dict(inst.ctx)
         if extra_ctx: ctx.update(extra_ctx)
         used = set()
@@ -64,7 +67,16 @@ class Session:
         self.K = self.dec.kripke(self.ctx_terms)
         self.K_noloop = None
         self.runs = self.ans['runs']
+        self.entries = [r.get('entry', 'ext_dirty') for r in runs]
+        self.dec_plain = uni.Decoded(self.ans['plain']) if plain else None
         self._sem = {}
+    def dec_for(self, i):
+        return self.dec_plain if self.entries[i] in SANITIZED else self.dec
+    def first(self, i):
+        """BDD string of the (first) result of run i, or None"""
+        r = self.runs[i]
+        if 'ok' not in r: return None
+        return r['ok'][0] if isinstance(r['ok'], list) else r['ok']
     def sem(self, phi, self_loops=True):
         key = (phi, self_loops)
         if key not in self._sem:
@@ -95,10 +107,11 @@ def concrete_of_colour(sess, colour):
     unit_ok = z3.is_true(z3.simplify(z3.substitute(dec.unit, *sub)))
     return T, sets, unit_ok
 
-def confirm(chk, pid, sess, phi, bdd_str, model, name, signature, self_loops=True, expect=None):
+def confirm(chk, pid, sess, phi, bdd_str, model, name, signature, self_loops=True, expect=None, rdec=None):
     """replay of an E-UNI counterexample.  Returns True if it reproduced (violation recorded)."""
     assign, colour, state = witness(sess, model)
-    got = eval_bdd(bdd_str, assign)
+    rdec = rdec or sess.dec
+    got = eval_bdd(bdd_str, [bool(z3.is_true(model.eval(x, model_completion=True))) for x in rdec.X])
     T, sets, unit_ok = concrete_of_colour(sess, colour)
     chk.native_replays += 1
     spec = RP.concrete_spec(sess.dec.n, T, sets, phi, self_loops=self_loops)
@@ -116,29 +129,29 @@ def confirm(chk, pid, sess, phi, bdd_str, model, name, signature, self_loops=Tru
                   f"explicit semantics says {'in' if want else 'not in'} (native run on the instantiated network: {sorted(nat) if isinstance(nat, set) else nat}, semantics: {sorted(spec)})")
     return True
 
-def check_equiv(chk, pid, sess, phi, bdd_str, name, signature='semantics', timeout_ms=120000, self_loops=True, nontrivial=True):
+def check_equiv(chk, pid, sess, phi, bdd_str, name, signature='semantics', timeout_ms=120000, self_loops=True, nontrivial=True, rdec=None):
     dec = sess.dec
-    R = dec.bdd(bdd_str)
+    R = (rdec or dec).bdd(bdd_str)
     t = time.time(); o = sess.sem(phi, self_loops); enc = time.time() - t
     v = uni.decide([dec.unit, R != o], timeout_ms); chk.queries += 1
     if v.status == 'unsat':
         chk.obligation(name, 'E-UNI', 'holds', v.seconds + enc, nontrivial,
                        {'formula': S.show(phi), 'instance': sess.inst.name, 'k': sess.k, 'bdd_nodes': dec.bdd_size(bdd_str), 'query': 'exists colour,state,aux: unit & (result != semantics)', 'verdict': 'unsat'})
         return True
-    if v.status == 'sat': confirm(chk, pid, sess, phi, bdd_str, v.model, name, signature, self_loops)
+    if v.status == 'sat': confirm(chk, pid, sess, phi, bdd_str, v.model, name, signature, self_loops, rdec=rdec)
     else: chk.obligation(name, 'E-UNI', 'inconclusive', v.seconds)
     return False
 
-def check_inside_unit(chk, pid, sess, phi, bdd_str, name, signature='outside-unit'):
+def check_inside_unit(chk, pid, sess, phi, bdd_str, name, signature='outside-unit', rdec=None):
     dec = sess.dec
-    R = dec.bdd(bdd_str)
+    R = (rdec or dec).bdd(bdd_str)
     v = uni.decide([z3.Not(dec.unit), R], 60000); chk.queries += 1
     if v.status == 'unsat':
         chk.obligation(name, 'E-UNI', 'holds', v.seconds, True, {'formula': S.show(phi), 'instance': sess.inst.name, 'query': 'exists colour,state,aux: result & not unit', 'verdict': 'unsat'})
         return True
     if v.status == 'sat':
         assign, colour, state = witness(sess, v.model)
-        got = eval_bdd(bdd_str, assign); unit = eval_bdd(sess.ans['unit'], assign)
+        got = eval_bdd(bdd_str, [bool(z3.is_true(v.model.eval(x, model_completion=True))) for x in (rdec or dec).X]); unit = eval_bdd(sess.ans['unit'], assign)
         chk.native_replays += 1
         if got and not unit:
             chk.obligation(name, 'E-UNI', 'violated')
@@ -156,14 +169,15 @@ def run_plain_family(chk, pid, which, phis, k_extra=0, entries=('ext_dirty',), s
             k = max([S.quant_depth(f) for f in chunk] + [0]) + k_extra
             runs = [{'phis': [f], 'entry': entries[j % len(entries)]} for j, f in enumerate(chunk)]
             sess = Session(inst, k, runs)
-            for f, r, spec in zip(chunk, sess.runs, runs):
+            for i, (f, r, spec) in enumerate(zip(chunk, sess.runs, runs)):
                 name = f'{pid}/E-UNI {inst.name} k={k} {spec["entry"]}: {S.show(f)}'
-                if 'ok' not in r:
+                b = sess.first(i)
+                if b is None:
                     chk.obligation(name, 'E-UNI', 'violated')
                     chk.violation(name, 'error-on-valid-input', {'instance': inst.name, 'aeon': inst.aeon, 'formula': S.show(f), 'answer': r}, f'valid formula {S.show(f)} answered {r}')
                     continue
-                check_equiv(chk, pid, sess, f, r['ok'], name, signature)
-                if check_unit: check_inside_unit(chk, pid, sess, f, r['ok'], name + ' [inside unit]')
+                check_equiv(chk, pid, sess, f, b, name, signature, rdec=sess.dec_for(i))
+                if check_unit: check_inside_unit(chk, pid, sess, f, b, name + ' [inside unit]', rdec=sess.dec_for(i))
 
 # ------------------------------------------------------------------ families
 def family_c13(chk):
